@@ -1349,6 +1349,13 @@ func (g *Gen) loopEnv(li *loopInfo, st *State, phiVals map[*ssa.Phi]string) *Env
 			if phi.Comment != "" {
 				e.vars[phi.Comment] = tv{t: t, ty: goT(phi.Type())}
 			}
+			if l := g.loops[hb]; l != nil {
+				if cp, _ := g.countingLoop(l); cp == phi {
+					// `for i := 0; i < n; i++`: i iterations are complete at the loop head, as with rangeindex+1
+					e.vars["iter"] = tv{t: t, ty: stInt}
+					e.vars[fmt.Sprintf("iter%d", l.ordinal)] = tv{t: t, ty: stInt}
+				}
+			}
 		}
 	}
 	var chain []*loopInfo
